@@ -47,6 +47,8 @@ type SetSpec struct {
 	Revision  int64       `json:"revision"`
 	FinCached bool        `json:"finCached"`
 	PkgLabel  string      `json:"pkgLabel"`
+	// handover stream (od.go): the ObjectSet does not exist at the start, a `rollout` step creates it
+	Later bool `json:"later,omitempty"`
 }
 
 type SetEnv struct {
@@ -123,6 +125,9 @@ type Scn struct {
 	Store   []verifphase.SObj `json:"store"`
 	Steps   []Step            `json:"steps"`
 	Rounds  int               `json:"rounds,omitempty"` // C10: settle rounds after the steps
+	// handover stream (od.go): the sets are the revisions of one ObjectDeployment, reconciled by the
+	// REAL ObjectDeployment controller in `od` steps
+	OD *ODSpec `json:"od,omitempty"`
 }
 
 const NS = "ns1"
@@ -147,6 +152,7 @@ type sys struct {
 	env       *verifphase.Env
 	os        *objectsets.GenericObjectSetController
 	ph        *objectsetphases.GenericObjectSetPhaseController
+	od        *odState // handover stream only
 }
 
 func (y *sys) ns() string {
@@ -207,6 +213,9 @@ func (y *sys) putSet(sp SetSpec) {
 	}
 	if sp.FinCached {
 		om.Finalizers = []string{"package-operator.run/cached"}
+	}
+	if y.scn.OD != nil {
+		y.odMeta(sp, &om)
 	}
 	var obj runtime.Object
 	if y.scn.Cluster {
@@ -380,6 +389,9 @@ func (y *sys) setStr(u *unstructured.Unstructured) string {
 	if life == "" {
 		life = "Active"
 	}
+	if u.GetAnnotations()[pbpAnnotation] == "true" { // paused-by-parent marker of the ObjectDeployment controller
+		life += "+pbp"
+	}
 	return fmt.Sprintf("%s{g=%d,d=%s,f=%s,life=%s,%s %s}", u.GetName(), u.GetGeneration(), d, fin, life, statusStr(u.Object), remotePhasesStr(u.Object))
 }
 
@@ -511,10 +523,15 @@ func newSys(scn Scn) *sys {
 	y.startProcess()
 	y.env.Store.RegisterKind(schema.GroupKind{Group: "", Kind: "Namespace"}, false)
 	for _, sp := range scn.Sets {
-		y.putSet(sp)
+		if !sp.Later {
+			y.putSet(sp)
+		}
 	}
 	for _, sp := range scn.Sets {
 		y.putSlices(sp)
+	}
+	if scn.OD != nil {
+		y.newOD()
 	}
 	nsObj := &unstructured.Unstructured{Object: map[string]interface{}{"apiVersion": "v1", "kind": "Namespace"}}
 	nsObj.SetName(NS)
@@ -551,6 +568,9 @@ type callInfo struct {
 func (y *sys) doStep(st Step) string {
 	ctx := context.Background()
 	from := len(y.env.Store.Log)
+	if out, ok := y.odStep(st); ok {
+		return out
+	}
 	switch st.Op {
 	case "reconcile", "phase":
 		mw, sw := 0, 0
